@@ -36,7 +36,7 @@ func init() {
 	core.Register(&core.Spec{
 		ID:    "C12",
 		Level: "exploration",
-		Rule: "the full product {14 spellings of the 8 path-bearing attributes} x {path shapes valid for the attribute's class: ./x, d/y, ../x, ., ./a/../b, x/, /abs, /abs/./a/../b, ~, ~/x, C:\\x, c:/x, \\\\srv\\share, https://, http://, git://, ssh://, git@, github.com/, docker-image://, foo://, named volume} x {origin: main file, override file, include (short), include with project_directory, include at depth 2, extends from another directory, two-level extends chain, own attribute of an extending service} is enumerated in a seeded order and packed 2-7 placements per scenario, with seeded project-directory shapes (deep / spaces / dots) and main-file location (inside or outside the project directory); every scenario also carries path-looking decoys in non-path attributes of the main, included and extended files. " +
+		Rule: "the full product {14 spellings of the 8 path-bearing attributes} x {path shapes valid for the attribute's class: ./x, d/y, ../x, ., ./a/../b, x/, ./vendor/github.com/acme/app, ../mirrors/git@internal/app, /abs, /abs/./a/../b, ~, ~/x, C:\\x, c:/x, \\\\srv\\share, https://, http://, git://, ssh://, git@, github.com/, docker-image://, foo://, named volume} x {origin: main file, override file, include (short), include with project_directory, include at depth 2, extends from another directory, two-level extends chain, own attribute of an extending service} is enumerated in a seeded order and packed 2-7 placements per scenario, with seeded project-directory shapes (deep / spaces / dots) and main-file location (inside or outside the project directory); every scenario also carries path-looking decoys in non-path attributes of the main, included and extended files. " +
 			"A scenario is non-trivial when the load with path resolution succeeded and at least one placement had a relative or ~ shape from a non-main origin or an untouched shape (absolute, Windows, remote, named); distinct = distinct (files, placements).",
 		Assumptions: []string{
 			"expected values are lexical: clean(join(base, value)); the generated scenario directories contain no symbolic links; a separate hand-shaped part puts directory links (relative, absolute, outside the project, chained) under develop.watch paths, the only attribute whose links the library resolves, and requires an absolute result designating the same directory",
@@ -73,6 +73,8 @@ var shapes = []shape{
 	{"dot", ".", "relative", true},
 	{"unclean", "./a/../b", "relative", false},
 	{"trailing-slash", "x/", "relative", true},
+	{"git-host-inside", "./vendor/github.com/acme/app", "relative", false}, // remote markers are prefixes, not substrings
+	{"git-at-inside", "../mirrors/git@internal/app", "relative", false},
 	{"abs", caseTok + "/abs/p", "absolute", false},
 	{"abs-unclean", "/abs/./a/../b", "absolute", false},
 	{"home", "~", "home", true},
